@@ -88,6 +88,7 @@ func multiBfsCheck(regName string, parts []part, extraAssume []string) {
 			per := map[string]any{}
 			var mkAny func() Driver
 			var o Options
+			var refused []SetupRefused
 			for _, p := range parts {
 				if tier != "thorough" && p.QD == 0 {
 					continue
@@ -97,8 +98,26 @@ func multiBfsCheck(regName string, parts []part, extraAssume []string) {
 					o.Depth, o.ConfCap, o.Deadline = p.TD, p.TC, 60*time.Minute
 				}
 				o.Params = map[string]any{"depth": o.Depth, "tier": tier, "part": p.Driver}
-				st := Explore(p.Mk, o, kf)
-				Conformance(p.Mk, st, o)
+				// a part whose world cannot be prepared on this tree does not stop the other parts: one of
+				// them may show the violation behind the refusal. Unexplained, it is a harness error at the end.
+				var st *Stats
+				func() {
+					defer func() {
+						if r := recover(); r != nil {
+							sr, ok := r.(SetupRefused)
+							if !ok {
+								panic(r)
+							}
+							refused = append(refused, sr)
+							st = nil
+						}
+					}()
+					st = Explore(p.Mk, o, kf)
+					Conformance(p.Mk, st, o)
+				}()
+				if st == nil {
+					continue
+				}
 				per[p.Driver] = map[string]any{"states": st.States, "transitions": st.Transitions, "completed_depth": st.CompletedDepth, "exhaustive": st.Exhaustive, "conformance": st.ConfValidated}
 				if len(st.Violations) > 0 {
 					// report this part on its own so that the replay file names its driver
@@ -106,6 +125,9 @@ func multiBfsCheck(regName string, parts []part, extraAssume []string) {
 				}
 				total = mergeStats(total, st)
 				mkAny = p.Mk
+			}
+			if len(refused) > 0 {
+				panic(refused[0])
 			}
 			o.Params = map[string]any{"tier": tier}
 			if c := Finish(mkAny, "multi", total, o, map[string]any{"parts": per}, extraAssume); c != 0 {
@@ -268,6 +290,9 @@ func init() {
 			}
 			parts = append(parts, part{fmt.Sprintf("neofs-votes-n%d", n), func() Driver { return NewVoteDriver(n, n >= 3, full) }, qd, td, 30, 150})
 		}
+		// two ballots and several waits: only setConfig votes for two ids and the clock, deeper
+		parts = append(parts, part{"neofs-votes-n2-two-ballots-timing", func() Driver { return NewVoteTimingDriver(2) }, 6, 8, 30, 150},
+			part{"neofs-votes-n4-two-ballots-timing", func() Driver { return NewVoteTimingDriver(4) }, 0, 7, 30, 150})
 		// without the symmetry reduction (every voter order), thorough tier only
 		parts = append(parts, part{"neofs-votes-n3-all-orders", func() Driver { return NewVoteDriver(3, false, true) }, 0, 5, 30, 150})
 		multiBfsCheck("C17", parts, nil)
